@@ -205,7 +205,15 @@ func extraC06Defrag(c *Ctx) {
 			if !ok || be.Op != token.EQL || !a.Val {
 				continue
 			}
+			var sides []ast.Node
 			for _, side := range []ast.Expr{be.X, be.Y} {
+				sides = append(sides, expand(g, side, 2)...) // through a local (`pendingEnd := pendingDst + pendingLen`)
+			}
+			for _, sd := range sides {
+				side, isE := sd.(ast.Expr)
+				if !isE {
+					continue
+				}
 				ar, isB := ast.Unparen(side).(*ast.BinaryExpr)
 				if !isB {
 					continue
